@@ -1,16 +1,23 @@
 (* C02 — scalar-polymorphic phase-space algebra on two local modes (definitions only).
 
-   Scalars are an arbitrary type K with ring operations handed in as Section variables: the
+   Scalars are an arbitrary type K with ring operations handed in as a class instance (Ops): the
    same definitions are executed at PrimFloat (correspondence) and reasoned about over any
    commutative ring (Proofs).  Quadrature order is (x0, x1, p0, p1) ("xxpp"), hbar-free: every
    displacement is in quadrature units.  An element of [aff] is the affine map r |-> lin r + off
    that a Gaussian unitary induces on the vector of means (its covariance action is
    V |-> lin V lin^T), i.e. exactly the "transformation the operation is documented to perform". *)
+
+(* the scalar operations, plus the three constants the gate definitions need:
+   s2h = sqrt(2 hbar), is2h = 1/sqrt(2 hbar), rt = cos(pi/4) = sin(pi/4) *)
+Class Ops (K : Type) := mkOps {
+  k0 : K; k1 : K; kadd : K -> K -> K; kmul : K -> K -> K; ksub : K -> K -> K; kopp : K -> K;
+  s2h : K; is2h : K; rt : K }.
+
 Set Primitive Projections.
 
 Section Alg.
 Variable K : Type.
-Variables (k0 k1 : K) (kadd kmul ksub : K -> K -> K) (kopp : K -> K).
+Context {Kops : Ops K}.
 
 Local Notation "0" := k0.
 Local Notation "1" := k1.
